@@ -88,10 +88,10 @@ pub fn hash_json<T: Serialize>(t: &T) -> u64 {
 /// A tiny deterministic PRNG for places where a value is derived from an index (enumerators that
 /// sample) – the concrete case is always stored in the replay, so no shrinking is lost.
 #[derive(Clone)]
-pub struct Rng(pub u64);
-impl Rng {
+pub struct Prng(pub u64);
+impl Prng {
     pub fn new(seed: u64) -> Self {
-        Rng(splitmix(seed))
+        Prng(splitmix(seed))
     }
     pub fn next(&mut self) -> u64 {
         self.0 = self.0.wrapping_add(0x9E37_79B9_7F4A_7C15);
